@@ -180,7 +180,7 @@ def parsed_name_used_rule(res, fx, rule='PARSED-USED'):
     res.rule(rule, 'in the expression parser every local that LexerToken::ParseFieldName() fills in (field name, value index, default value) flows into an argument of the CreateSubexpression() call '
                    'that follows it (directly or through locals computed from it): a result that is parsed and then dropped means the un-split token is used instead', floor=4)
     n = 0
-    for f in sorted((f for f in fx.funcs.values() if f.full and 'CreateQueryFilterFromExpression' in f.q), key=lambda f: (f.file, f.line)):
+    for f in sorted((f for f in fx.funcs.values() if f.full and f.file.endswith('regex/QueryFilter.cpp') and 'LexerToken::' not in f.q), key=lambda f: (f.file, f.line)):
         subs = [c for c in f.walk() if c.is_call() and (c.get('q') or '').endswith('::CreateSubexpression')]
         for c in f.walk():
             if not (c.is_call() and re.search(r'LexerToken::ParseFieldName(Aux)?$', c.get('q') or '')):
